@@ -253,7 +253,8 @@ def mirror_matrix(normal: VectorType):
 def mirror(point: PointType, normal: VectorType, origin: PointType):
     """Mirror a point around a plane, given by a normal and origin"""
     # brainlessly copied from https://gamemath.com/book/matrixtransforms.html
-    point = np.asarray(point)
+    # work on a copy: the caller's array must stay as it is
+    point = np.array(point, dtype=constants.DTYPE)
     normal = unit_vector(normal)
     origin = np.asarray(origin)
 
